@@ -271,8 +271,9 @@ class ClientMachine(RuleBasedStateMachine):
             if not rec.get("absorbed"):
                 self.absorb(ci, rec)
         # the cache may have been written by a successful profile reply even when we could not predict the hops
-        p = self.tmp / "fiprofiles" / f"{key[0]}-{key[1]}.profrs"
-        if p.exists() and not self.cache.get(key):
+        d = self.tmp / "fiprofiles"
+        cached = d.exists() and any(p.name.startswith(f"{key[0]}-{key[1]}") and p.name.endswith(".profrs") for p in d.iterdir())
+        if cached and not self.cache.get(key):
             self.cache[key] = True
 
     def fail(self, key, step, detail):
